@@ -439,3 +439,29 @@ theorem engineOfProgram_sep (p : C05.Program) : EngineSep (engineOfProgram p) :=
   engineOf_sep _ _ (C05.table_good p)
 
 end C14
+
+namespace C14
+
+theorem advance_sep' (i : Iter) (h : IterOK i) (hs : i.sep = true) : (advance i).2.sep = true := by
+  cases hr : i.rest with
+  | nil => simp [advance, hr, sepAfter, hs]
+  | cons x t => exact advance_sep i h (by rw [hr]; simp)
+
+/-- Why mutant 25 is equivalent: the post-break iterator starts at a separation point and every
+advance leaves it at one (its run ends at a separation point), so the conjunct
+`post_break_iter.is_separation_point()` of the exit test is always true when the test runs. -/
+theorem syncNoPostSep_eq : ∀ (fuel : Nat) (st : Sync), IterOK st.post → st.post.sep = true →
+    syncNoPostSep fuel st = sync fuel st := by
+  intro fuel
+  induction fuel with
+  | zero => intro st _ _; rfl
+  | succ fuel ih =>
+    intro st hok hsep
+    simp only [syncNoPostSep, sync, hsep, Bool.and_true]
+    split
+    · rfl
+    · split
+      · exact ih _ (IterOK_advance _ hok) (advance_sep' _ hok hsep)
+      · exact ih _ hok hsep
+
+end C14
